@@ -1,7 +1,8 @@
 /-
   C06 — the message framing used by `ThreadLink`, taken from C01's model of src/rtosc.c
   (`RtoscModel/Osc/Length.lean`, `RtoscModel/Osc/Bundle.lean`; both mirror rtosc.c at HEAD,
-  i.e. with the guards of the fixes C07-blob-len / C07-bundle-len / C07-empty-string-size):
+  i.e. with the guards of the fixes C07-blob-len / C07-bundle-len / C07-empty-string-size /
+  C06-bundle-length-wrap):
 
   * `frameOsc v`   = `rtosc_message_ring_length(r)` on the ring view `v = r[0] ++ r[1]`
                      (`Osc.ringLength`; the code's own `deref` yields 0 outside both segments and
@@ -10,10 +11,13 @@
                      `Proofs/RingOsc.lean` proves `Framing frameOsc IsOscMsg` from C01's
                      `ringLength_encode`.
   * `rawLen blk`   = `rtosc_message_length(msg, -1)` as called by `ThreadLink::raw_write`
-                     (`Osc.messageLengthU`): the ring is `{{msg, SIZE_MAX}, {NULL, 0}}`, so *no*
-                     guard of the code can fire and every read is checked against the block
-                     `blk` at `msg` instead: `.oob` = a byte outside the block would be read,
-                     `.hang` = the loop does not terminate (finding C06-K6).
+                     (`Osc.messageLengthU`): the ring is `{{msg, SIZE_MAX}, {NULL, 0}}`, so no
+                     guard of the code that compares with `total` can fire and every read is
+                     checked against the block `blk` at `msg` instead: `.oob` = a byte outside
+                     the block would be read, `.hang` = the loop does not terminate.  Since fix
+                     C06-bundle-length-wrap (former finding C06-K6) `.hang` is not a value of
+                     `rawLen` on any block shorter than 2^32 bytes, nor on any bundle
+                     (`rawLen_terminates`, `rawLen_bundle_terminates` in Props/C06.lean).
 
   (An earlier version of this file carried its own transcription of rtosc.c:545-652; it had
   gone stale against the two fixes above — white-box review B1/B2 — and is gone.)
@@ -42,8 +46,11 @@ def IsOscMsg (b : Bytes) : Prop :=
 
 /-- One operation of the sequential ThreadLink with the real length functions:
     `raw_write` computes its length with `rtosc_message_length(msg,-1)` (`rawLen`), the reads
-    frame with `rtosc_message_ring_length` (`frameOsc`).  `none`: `raw_write` does not return
-    (`.hang`) or reads outside the block it was given (`.oob`). -/
+    frame with `rtosc_message_ring_length` (`frameOsc`).  `none`: `raw_write` reads outside the
+    block it was given (`.oob`); or does not return (`.hang`: proved impossible,
+    `raw_write_returns` in Props/C06.lean).  A length of 0 (no message recognised, e.g. a bundle
+    whose element sizes would wrap `unsigned pos`) passes `len <= MaxMsg && ring_write_size() >=
+    len` and `ring_write` copies no byte: the block is dropped. -/
 def Seq.stepOsc (s : Seq) : Op → Option (Seq × Out)
   | .rawWrite b =>
     match rawLen b with
